@@ -2,7 +2,7 @@
 from props import C03
 from props.conc import *
 
-THEOREMS = ["C04_no_lost_wakeup", "C04_deadlock_free", "C04_bounded_steps", "C04_protocol_text_is_the_modelled_one"]
+THEOREMS = ["C04_no_lost_wakeup", "C04_deadlock_free", "C04_bounded_steps", "C04_bounded_steps_without_spurious", "C04_protocol_text_is_the_modelled_one"]
 
 
 def fault_cases(ck, count):
@@ -68,8 +68,8 @@ def run(ck):
         T, ln = shapes[i % len(shapes)]
         pad = (i // len(shapes)) % 2 == 0
         cfg.append((T, pad, pipe_input(r, ln, pad), r.randrange(1 << 30), 1 if i % 4 == 3 else 0, 1 if i % 3 == 1 else 0))
-    # a tenth of the runs with injected spurious wake-ups (policy code 10*percent + policy): outside the Coq model, which
-    # assumes none; the while-loops around cv.wait must make the code robust to them
+    # a tenth of the runs with injected spurious wake-ups (policy code 10*percent + policy): schedulable actions of the Coq model
+    # since the second round (tid T+1+j), so these traces are validated against the model like the others
     cfg = [(T, pad, inp, seed, ycs, pol + (200 if k % 10 == 9 else 0)) for k, (T, pad, inp, seed, ycs, pol) in enumerate(cfg)]
     res = run_schedules(ck, exe, cfg)
     C03.analyse(ck, res, want=("deadlock", "trace", "output"))
@@ -77,4 +77,4 @@ def run(ck):
     C03.end_to_end(ck, exe, 120 if big else 30)
     fault_cases(ck, 150 if big else 40)
     return finish_proof(ck, rule="termination under seeded schedules of the real pipeline (scheduler shim reports 'no enabled thread while a thread is unfinished' as DEADLOCK and > 2*10^6 steps as LIVELOCK): empty inputs, inputs ending exactly on a chunk boundary, more workers than chunks (T up to 16), both directions, uniform and priority schedulers, extra yields inside critical sections in a quarter of the runs; every trace replayed on the Coq transition system (incl. the number of enabled threads at every step); whole encrypt/decrypt/verify under random schedules; encrypt/decrypt on input streams whose reads start failing (EIO) at offset 0, inside a chunk, on a chunk boundary, and during decryption's second pass (real threads; must return). distinct = distinct (T, direction, length, schedule)",
-                        assumptions=C03.ASSUME + ["proved: no lost wake-up, deadlock freedom for every reachable state, and a bound on the length of every schedule (strictly decreasing potential): every maximal execution ends in the terminal state"])
+                        assumptions=C03.ASSUME + ["proved: no lost wake-up, deadlock freedom for every reachable state, and length sched <= B + 2 * (number of spurious wake-ups in sched) for every schedule: every execution with finitely many spurious wake-ups is finite and every maximal one ends in the terminal state"])
